@@ -45,6 +45,8 @@ THEOREMS = [
     "C12_valid_satisfiable", "C12_swhid_contract_satisfiable",
     "C12_legacy_extra_headers_dict", "C12_constructor_fixed", "C12_constructor_output_wf",
     "C12_constructor_output_wf_needs_typing", "C12_roundtrip_constructed", "C12_idf_invariant_satisfiable",
+    "C12_schema_types_match_generated", "C12_model_schemas_match_generated", "C12_type_codes_injective",
+    "C12_generic_validated_match_generated", "C12_enums_match_generated",
 ]
 RULE = ("objects of the 18 model classes generated from the attrs schemas: full presence matrix of the optional "
         "fields (exhaustive up to 8, sampled beyond), every admissible context subset of RawExtrinsicMetadata per "
